@@ -28,6 +28,29 @@ def _is_mv(node: ast.AST, prefix: str) -> Optional[str]:
 
 COMMUTATIVE_BIN = (ast.Add, ast.Mult, ast.BitAnd, ast.BitOr)
 COMMUTATIVE_CMP = (ast.Eq, ast.NotEq)
+FLIPPED = {ast.Lt: ast.Gt, ast.Gt: ast.Lt, ast.LtE: ast.GtE, ast.GtE: ast.LtE}
+
+# Definitions of single-assignment locals of the function being matched (set by Snips around a query): a pattern that expects
+# a compound expression also matches a local name whose only definition is that expression (temporaries are transparent).
+_DEFS: Dict[str, ast.AST] = {}
+
+
+class Virtual:
+    """binding of a V_ metavariable to an expression occurrence instead of a name: the statement `V_t = <expr>` was matched
+    'virtually' because the code uses <expr> in place without naming it."""
+
+    def __init__(self, node):
+        self.node = node
+        self.text = _txt(node)
+
+    def __eq__(self, other):
+        return isinstance(other, Virtual) and other.text == self.text
+
+    def __hash__(self):
+        return hash(self.text)
+
+    def __str__(self):
+        return self.text
 
 
 def match(p: ast.AST, n: ast.AST, env: Env) -> Optional[Env]:
@@ -37,6 +60,8 @@ def match(p: ast.AST, n: ast.AST, env: Env) -> Optional[Env]:
             return env
         v = _is_mv(p, "V_")
         if v is not None:
+            if v in env and isinstance(env[v], Virtual):
+                return env if _txt(n) == env[v].text else None
             if not isinstance(n, (ast.Name, ast.Attribute)):
                 return None
             if isinstance(n, ast.Attribute) and ast.unparse(n).count("(") > 0:
@@ -59,6 +84,10 @@ def match(p: ast.AST, n: ast.AST, env: Env) -> Optional[Env]:
     if isinstance(p, ast.Expr) and not isinstance(n, ast.Expr):
         return None
     if type(p) is not type(n):
+        if isinstance(n, ast.Name) and isinstance(p, ast.expr) and n.id in _DEFS and isinstance(getattr(n, "ctx", None), ast.Load):
+            d = _DEFS[n.id]
+            if d is not n and not any(x is n for x in ast.walk(d)):
+                return match(p, d, env)
         return None
     if isinstance(p, ast.Constant):
         return env if p.value == n.value and type(p.value) is type(n.value) or (isinstance(p.value, (int, float)) and isinstance(n.value, (int, float))
@@ -78,6 +107,14 @@ def match(p: ast.AST, n: ast.AST, env: Env) -> Optional[Env]:
                 e2 = match(p.values[1], b, e1)
                 if e2 is not None:
                     return e2
+        return None
+    if isinstance(p, ast.Compare) and isinstance(n, ast.Compare) and len(p.ops) == len(n.ops) == 1 and type(p.ops[0]) in FLIPPED \
+            and FLIPPED[type(p.ops[0])] is type(n.ops[0]):
+        e1 = match(p.left, n.comparators[0], env)           # a < b  matches  b > a
+        if e1 is not None:
+            e2 = match(p.comparators[0], n.left, e1)
+            if e2 is not None:
+                return e2
         return None
     if isinstance(p, ast.Compare) and len(p.ops) == len(n.ops) == 1 and type(p.ops[0]) is type(n.ops[0]) and isinstance(p.ops[0], COMMUTATIVE_CMP):
         for a, b in ((n.left, n.comparators[0]), (n.comparators[0], n.left)):
@@ -264,6 +301,17 @@ class Snips:
         self.stmts = [n for n in self._nodes if isinstance(n, ast.stmt)]
         self.exprs = [n for n in self._nodes if isinstance(n, ast.expr)]
         self._pc: Dict[str, ast.AST] = {}
+        # single-assignment locals (one store in the whole outermost function, by a plain assignment)
+        stores: Dict[str, int] = {}
+        vals: Dict[str, ast.AST] = {}
+        for x in ast.walk(top.node):
+            if isinstance(x, ast.Name) and isinstance(x.ctx, (ast.Store, ast.Del)):
+                stores[x.id] = stores.get(x.id, 0) + 1
+            elif isinstance(x, ast.Assign) and len(x.targets) == 1 and isinstance(x.targets[0], ast.Name):
+                vals[x.targets[0].id] = x.value
+            elif isinstance(x, (ast.AugAssign,)) and isinstance(x.target, ast.Name):
+                stores[x.target.id] = stores.get(x.target.id, 0) + 1
+        self.defs = {k: v for k, v in vals.items() if stores.get(k) == 1 and k not in pn}
 
     def conv(self, src: str) -> ast.AST:
         if src not in self._pc:
@@ -282,10 +330,29 @@ class Snips:
         else:
             pool = self.stmts if isinstance(p, ast.stmt) else self.exprs
         out = []
-        for n in pool:
-            e = match(p, n, dict(env or {}))
-            if e is not None:
-                out.append((n, e))
+        global _DEFS
+        saved, _DEFS = _DEFS, self.defs
+        try:
+            for n in pool:
+                e = match(p, n, dict(env or {}))
+                if e is not None:
+                    out.append((n, e))
+            # `V_t = <expr>` is also satisfied by an occurrence of <expr> that the code did not name
+            if not out and isinstance(p, ast.Assign) and len(p.targets) == 1 and _is_mv(p.targets[0], "V_") and not _is_mv(p.value, "E_") \
+                    and not (isinstance(p.value, ast.Name)):
+                tv = _is_mv(p.targets[0], "V_")
+                if tv not in (env or {}):
+                    epool = [n for n in (ast.walk(within) if within is not None else self.exprs) if isinstance(n, ast.expr)]
+                    for n in epool:
+                        if isinstance(n, ast.Name):
+                            continue
+                        e = match(p.value, n, dict(env or {}))
+                        if e is not None:
+                            e = dict(e)
+                            e[tv] = Virtual(n)
+                            out.append((n, e))
+        finally:
+            _DEFS = saved
         out.sort(key=lambda x: (getattr(x[0], "lineno", 0), getattr(x[0], "col_offset", 0)))
         return out
 
@@ -311,4 +378,9 @@ class Snips:
     def m(self, src: str, node: ast.AST, env: Optional[Env] = None) -> Optional[Env]:
         if node is None:
             return None
-        return match(self.conv(src), node, dict(env or {}))
+        global _DEFS
+        saved, _DEFS = _DEFS, self.defs
+        try:
+            return match(self.conv(src), node, dict(env or {}))
+        finally:
+            _DEFS = saved
